@@ -34,7 +34,7 @@
    sync.Mutex has no owner, the model only tests them for [None].
    [misuse] is set when the caller breaks the contract of the API: Release(c) while a
    Fulfill(_, c) call is still running (the argument must stay valid during the call), or a
-   promise fulfilled with a client of itself. *)
+   promise fulfilled with a client that (transitively) resolves to that promise itself. *)
 From Coq Require Import ZArith List Bool Arith Lia.
 Import ListNotations.
 Open Scope Z_scope.
@@ -81,12 +81,13 @@ Inductive op :=
 | OCall (src : nat) (recv : bool)        (* SendCall / RecvCall *)
 | OFulfill (p src : nat)                 (* src slot empty = Fulfill(nil) *)
 | OIsValid (src : nat)
-| OIsSame (a b : nat).
+| OIsSame (a b : nat)
+| OState (src : nat).                    (* Client.State *)
 
 (* what a Client method does once it holds c.mu (and, at the end of the walk, c.h.mu) *)
 Inductive kont :=
 | KAddRef (dst : nat) | KRelease | KCall (recv : bool) | KValid | KWeakRef (wdst : nat)
-| KSame1 (c2 : option nat) | KSame2 (h1 : option nat).
+| KSame1 (c2 : option nat) | KSame2 (h1 : option nat) | KState.
 
 Inductive pc :=
 | Idle
@@ -94,7 +95,7 @@ Inductive pc :=
 | CWalk (k : kont) (c cur : nat)             (* holds c.mu, about to Lock cur.mu *)
 | WWalk (dst w cur : nat)                    (* WeakClient.AddRef, about to Lock cur.mu *)
 | InCall (h : nat)                           (* inside ClientHook.Send/Recv *)
-| CallFin (h : nat)                          (* finish(): about to Lock h.mu *)
+| CallFin (h : nat) (r : res)                (* finish(): about to Lock h.mu; r = the op's result *)
 | WaitDone (h : nat)                         (* <-h.done; h.Shutdown() *)
 | FLock (p : nat) (c : nat)                  (* Fulfill: about to Lock c.mu *)
 | FMark (p : nat) (rh : option nat) (c : option nat)   (* Fulfill: about to Lock cp.h.mu *)
@@ -242,6 +243,11 @@ Definition begin_op (t : nat) (o : op) (g : config) : config :=
       | None => same_second t None (lookup b (cslots g)) g
       | Some c => set_pc t (CLock (KSame1 (lookup b (cslots g))) c) g
       end
+  | OState src =>
+      match lookup src (cslots g) with
+      | None => finish t RNil g
+      | Some c => set_pc t (CLock KState c) g
+      end
   end.
 
 (* ---------------------------------------------------------------- Client methods *)
@@ -279,6 +285,8 @@ Definition clock_step (t : nat) (k : kont) (c : nat) (cl : client) (g : config) 
       | None => if c_released cl then finish t RPanic g else finish t (RBool (oeqb h1 None)) g
       | Some h => walk h
       end
+  | KState =>
+      match c_h cl with None => finish t RNil g | Some h => walk h end
   end.
 
 (* the walk reached nil: c.h = nil, c.mu unlocked (deferred Unlock / explicit) *)
@@ -292,6 +300,7 @@ Definition cwalk_nil (t : nat) (k : kont) (c : nat) (g : config) : config :=
   | KWeakRef _ => finish t RNil g
   | KSame1 c2 => same_second t None c2 g
   | KSame2 h1 => finish t (RBool (oeqb h1 None)) g
+  | KState => finish t RNil g
   end.
 
 (* the walk stopped at hook cur (its mutex has just been acquired; hk is its state) *)
@@ -322,7 +331,60 @@ Definition cwalk_end (t : nat) (k : kont) (c cur : nat) (hk : hook) (g : config)
       finish t ROk (set_wslots ((wdst, w) :: wslots g) (set_weaks (weaks g ++ [Some cur]) (unlock_c g)))
   | KSame1 c2 => same_second t (Some cur) c2 (unlock_c g)
   | KSame2 h1 => finish t (RBool (oeqb h1 (Some cur))) (unlock_c g)
+  | KState =>
+      (* State(): startCall brackets the read of Brand(); no Send/Recv; IsPromise = !resolved *)
+      set_pc t (CallFin cur (RBool (negb (h_resolved hk))))
+        (unlock_c (uh cur (hk_calls (h_calls hk + 1)) g))
   end.
+
+(* ---------------------------------------------------------------- Fulfill: marking the promise *)
+(* Does the resolution chain starting at x lead to p?  (Running out of fuel counts as "yes":
+   the check is only used to flag caller errors, and it may err on the side of flagging.) *)
+Fixpoint chain_hits (hs : list hook) (fuel : nat) (x p : nat) : bool :=
+  if Nat.eqb x p then true else
+  match fuel with
+  | O => true
+  | S f =>
+      match nth_error hs x with
+      | Some hk => if forwarded x hk then
+                     match h_rh hk with Some y => chain_hits hs f y p | None => false end
+                   else false
+      | None => false
+      end
+  end.
+
+(* Fulfill(p, c) with c's hook rh already (transitively) resolved to p: the promise would be
+   resolved into a cycle.  The Go code would then spin or block forever in resolveHook; it is a
+   caller error ("all future calls ... will be sent to c" has no meaning), flagged as misuse. *)
+Definition resolves_to_cycle (g : config) (rh : option nat) (p : nat) : bool :=
+  match rh with
+  | Some r => chain_hits (hooks g) (length (hooks g)) r p
+  | None => false
+  end.
+
+(* cp.h.mu has been acquired by t, the promise is unresolved; hk is its state *)
+Definition fmark_body (fixed : bool) (t p : nat) (rh c : option nat) (hk : hook) (g : config) : config :=
+  let n := h_refs hk in
+  let hk1 := hk_refs 0 (hk_resolve rh hk) in
+  if n =? 0 then finish t ROk (uh p (fun _ => hk1) g)
+  else
+    let closed := if h_calls hk1 =? 0 then close_done hk1 else Some hk1 in
+    match closed with
+    | None => finish t RPanic (uh p (fun _ => hk_mu (Some t) hk1) g)
+    | Some hk2 =>
+        match rh with
+        | None => set_pc t (WaitDone p) (retarget p None (uh p (fun _ => hk2) g))
+        | Some r =>
+            if Nat.eqb r p then
+              (* the promise is resolved to itself: the references stay where they
+                 are and the hook is shut down nevertheless (caller error) *)
+              set_pc t (WaitDone p) (set_misuse true (uh p (fun _ => hk_refs n hk2) g))
+            else if fixed then
+              set_pc t (FWalk p n c r) (uh p (fun _ => hk_mu (Some t) hk2) g)
+            else
+              set_pc t (FWalk p n c r) (uh p (fun _ => hk2) g)
+        end
+    end.
 
 (* ---------------------------------------------------------------- one step *)
 Definition step (fixed : bool) (g : config) (t : nat) : option config :=
@@ -384,8 +446,8 @@ Definition step (fixed : bool) (g : config) (t : nat) : option config :=
                       (uh cur (hk_refs (h_refs hk + 1)) g))))
             end
         end
-    | InCall h => Some (set_pc t (CallFin h) g)
-    | CallFin h =>
+    | InCall h => Some (set_pc t (CallFin h RSent) g)
+    | CallFin h rr =>
         match get_hook g h with
         | None => None
         | Some hk =>
@@ -396,9 +458,9 @@ Definition step (fixed : bool) (g : config) (t : nat) : option config :=
                 if (h_refs hk1 =? 0) && (h_calls hk1 =? 0) then
                   match close_done hk1 with
                   | None => Some (finish t RPanic (uh h (fun _ => hk_mu (Some t) hk1) g))
-                  | Some hk2 => Some (finish t RSent (uh h (fun _ => hk2) g))
+                  | Some hk2 => Some (finish t rr (uh h (fun _ => hk2) g))
                   end
-                else Some (finish t RSent (uh h (fun _ => hk1) g))
+                else Some (finish t rr (uh h (fun _ => hk1) g))
             end
         end
     | WaitDone h =>
@@ -429,28 +491,8 @@ Definition step (fixed : bool) (g : config) (t : nat) : option config :=
             | None =>
                 if h_resolved hk then Some (finish t RPanic g)
                 else
-                  let n := h_refs hk in
-                  let hk1 := hk_refs 0 (hk_resolve rh hk) in
-                  if n =? 0 then Some (finish t ROk (uh p (fun _ => hk1) g))
-                  else
-                    let closed := if h_calls hk1 =? 0 then close_done hk1 else Some hk1 in
-                    match closed with
-                    | None => Some (finish t RPanic (uh p (fun _ => hk_mu (Some t) hk1) g))
-                    | Some hk2 =>
-                        match rh with
-                        | None =>
-                            Some (set_pc t (WaitDone p) (retarget p None (uh p (fun _ => hk2) g)))
-                        | Some r =>
-                            if Nat.eqb r p then
-                              (* the promise is resolved to itself: the references stay where they
-                                 are and the hook is shut down nevertheless (caller error) *)
-                              Some (set_pc t (WaitDone p) (set_misuse true (uh p (fun _ => hk_refs n hk2) g)))
-                            else if fixed then
-                              Some (set_pc t (FWalk p n c r) (uh p (fun _ => hk_mu (Some t) hk2) g))
-                            else
-                              Some (set_pc t (FWalk p n c r) (uh p (fun _ => hk2) g))
-                        end
-                    end
+                  Some (fmark_body fixed t p rh c hk
+                          (if resolves_to_cycle g rh p then set_misuse true g else g))
             end
         end
     | FWalk p n c cur =>
